@@ -121,4 +121,5 @@ HEADERS += \
     $$PWD/sinks/stdoutsink.h \
     $$PWD/sortedpipeline.h \
     $$PWD/utils.h \
+    $$PWD/verifpoint.h \
     $$PWD/version.h
